@@ -48,6 +48,12 @@ def coq_dist(d):
     return '(mkD %s %s %s %s)' % tuple(coq_q(v) for v in d)
 
 
+def coq_f(x):
+    """binary64 value -> Coq primitive-float literal (hexadecimal, exact)"""
+    h = float(x).hex()
+    return '(%s)%%float' % h
+
+
 def frac_dist(d):
     """implementation output -> 4 exact Fractions (None when an entry is not a finite real number)"""
     out = []
@@ -118,6 +124,21 @@ def run(ctx):
                 'inf / non-numeric bias, bad axis, lim of wrong length / all zero / no zero / negative / nan entries, '
                 'pos out of range, wrong types). nontrivial = p not in {0,1} with a non-default parameter')
     ctx.props_obligations()
+    # Print Assumptions prints the three Reals axioms over several lines; name them properly
+    try:
+        import os
+        import re
+        from harness.common import BUILD
+        txt = open(os.path.join(BUILD, 'assumptions', 'C16.txt')).read()
+        axs = sorted(set(re.findall(r'^([A-Z][\w.]*\.[a-z_]\w*)\b', txt, flags=re.M)))
+        closed = txt.count('Closed under the global context')
+        if ctx.assumptions:
+            ctx.assumptions[-1] = ('Print Assumptions: %d theorems closed under the global context; the 4 biased-Y-X '
+                                   'theorems over R (c16_yx_disc_nonneg, c16_yx_ratio, c16_yx_unique, c16_zero_bias_pure_x) '
+                                   'use the standard-library axioms: %s' % (closed, ', '.join(axs) or 'none'))
+            ctx.extra['print_assumptions'] = {'closed': closed, 'axioms': axs}
+    except OSError:
+        pass
     ctx.trusted += [
         'Python fractions.Fraction(float) as the exact value of a binary64 number; math.isqrt for the rational root '
         'handed to the Y-X model (accuracy 2^-bits, bits >= 400)',
@@ -146,6 +167,7 @@ def run(ctx):
         pend.append(fn)
 
     kern = []              # in-kernel sample
+    fkern = []             # bit-exact binary64 cases (simple models and biased-depolarizing)
 
     seen_keys = {}
 
@@ -240,6 +262,9 @@ def run(ctx):
                 if not relclose(fd[i], F(want[i]), pf):
                     viol('shape', 'Pr(%s) is not the documented value' % LET[i], rep)
             model_cmp(name, {}, p, fd, '%s %s' % (tok, qtok(pf)), {}, sample=(p in pgrid))
+            if len(fkern) < 4000:
+                fkern.append(('%sF %s' % ({'depol': 'depolarizing', 'bitflip': 'bit_flip', 'phaseflip': 'phase_flip',
+                                           'bitphase': 'bit_phase_flip'}[tok], coq_f(p)), d))
 
     # ---- 2. biased depolarizing ----------------------------------------------------------------
     def biased_case(bias, axis, p, kind, sample=False):
@@ -271,6 +296,8 @@ def run(ctx):
         if not relclose(hi + lo[0] + lo[1], pf, pf):
             viol('biased-sum', 'X+Y+Z != p', rep)
         model_cmp('biased', params, p, fd, 'biased %s %s %s' % (qtok(bf), ax, qtok(pf)), {}, sample=sample)
+        if isinstance(bias, float) and len(fkern) < 4000:
+            fkern.append(('biasedF %s A%s %s' % (coq_f(bias), ax, coq_f(p)), d))
 
     for axis in 'XYZ':
         for bias in (0.5, 1.0, 10.0, 100.0, 0.001, 1e-6, 1e12, 3.0, 1 / 3):
@@ -558,16 +585,25 @@ def run(ctx):
             viol('ctor-domain', 'constructor raises an undocumented exception class', rep)
         if signless:
             # F4 region: the documented domain says reject; the code at the pinned commit has no sign/finiteness test
-            def fn_doc(ans, got=got, rep=rep):
+            # the implementation must agree exactly either with the documented-domain decision function (repaired)
+            # or with the sign-less one (pinned commit: F4 when it accepts; its exception class otherwise)
+            box = {}
+
+            def fn_doc(ans, rep=rep, box=box):
+                box['doc'] = ans
                 rep['model_documented'] = ans
-                if got == 'ok' and ans != 'ok':
-                    viol('F4-slice-lim-sign-accepted', 'limit with a negative or non-finite entry accepted', rep)
-                elif (got == 'ok') != (ans == 'ok'):
-                    ctx.cmp('ctor-slice', rep, got, ans)
+
+            def fn_uns(ans, got=got, rep=rep, box=box):
+                rep['model_signless'] = ans
+                if got == box['doc']:
+                    return
+                if got == ans:
+                    if got == 'ok':
+                        viol('F4-slice-lim-sign-accepted', 'limit with a negative or non-finite entry accepted', rep)
+                    return
+                ctx.cmp('ctor-slice(F4 region)', rep, got, 'documented: %s / sign-less: %s' % (box['doc'], ans))
             ask('ctor_slice %s %s' % (lim_tok(lim), pynum_tok(pos)), fn_doc)
-            # exact delimitation of F4: the sign-less decision function reproduces the implementation
-            ask('ctor_slice_unsigned %s %s' % (lim_tok(lim), pynum_tok(pos)),
-                lambda ans, got=got, rep=rep: ctx.cmp('ctor-slice-unsigned(F4 delimitation)', rep, got, ans))
+            ask('ctor_slice_unsigned %s %s' % (lim_tok(lim), pynum_tok(pos)), fn_uns)
         else:
             if (got == 'ok') != documented_slice(lim, pos):
                 viol('ctor-domain', 'constructor accepts/rejects against the documented domain', rep)
@@ -631,6 +667,16 @@ def run(ctx):
             'Example corr : forallb (fun b => b) checks = true.\nProof. vm_compute. reflexivity. Qed.\n')
     ctx.kernel_cases('sample', text)
     ctx.extra['kernel_cases'] = len(items)
+    # bit-exact shard: the binary64 model (ErrorModels/DistFloat.v) reproduces the implementation's floats exactly,
+    # including the negative Pr(I) of finding F2
+    step = max(1, len(fkern) // ctx.pick(400, 1500))
+    fitems = ['(feq4 (%s) (%s, %s, %s, %s))' % ((call,) + tuple(coq_f(v) for v in d)) for call, d in fkern[::step]]
+    ftext = ('From Coq Require Import Floats List Bool.\nFrom QV Require Import ErrorModels.DistQ ErrorModels.DistFloat.\n'
+             'Import ListNotations.\nOpen Scope float_scope.\nDefinition checks : list bool :=\n ['
+             + ';\n  '.join(fitems) + '].\nExample corr : forallb (fun b => b) checks = true.\n'
+             'Proof. vm_compute. reflexivity. Qed.\n')
+    ctx.kernel_cases('binary64', ftext)
+    ctx.extra['kernel_cases_binary64'] = len(fitems)
     ctx.extra['engine_requests'] = len(req)
 
 
